@@ -688,14 +688,15 @@ func (c *Ctx) CYC(rule string) []report.Obligation {
 					continue
 				}
 				if bo, ok := iff.Cond.(*ssa.BinOp); ok && bo.Op == token.EQL {
-					if c.elementOf(bo.X, incl) || c.elementOf(bo.Y, incl) {
+					// one side is an element of the chain, the other the path the resource loader returned
+					if (c.elementOf(bo.X, incl) && c.isLoadedPath(bo.Y)) || (c.elementOf(bo.Y, incl) && c.isLoadedPath(bo.X)) {
 						found = true
 					}
 				}
 			}
 		}
 		out = append(out, verdict(found, rule, "include :: cycle error on a path already being included", c.P.Pos(f.Pos()),
-			"ApplyInclude has an error return on the true edge of `element of included == loaded path`", "ApplyInclude no longer compares the loaded path with the chain of files being included"))
+			"ApplyInclude has an error return on the true edge of `element of included == path returned by the resource loader`", "ApplyInclude no longer compares the loaded path with the chain of files being included"))
 		// threaded to the nested load
 		thr := false
 		for _, ci := range c.callsTo(f, "loader.loadYamlModel") {
@@ -746,6 +747,35 @@ func (c *Ctx) CYC(rule string) []report.Obligation {
 			"processRawYaml passes append(included, file.Filename) to ApplyInclude", "the file being loaded is not added to the include chain before its includes are followed"))
 	}
 	return out
+}
+
+// isLoadedPath: v is the first result of an invoke of ResourceLoader.Load.
+func (c *Ctx) isLoadedPath(v ssa.Value) bool {
+	for i := 0; i < 4; i++ {
+		switch x := v.(type) {
+		case *ssa.Extract:
+			if call, ok := x.Tuple.(*ssa.Call); ok && call.Call.IsInvoke() && call.Call.Method.Name() == "Load" && x.Index == 0 {
+				return true
+			}
+			return false
+		case *ssa.Phi:
+			for _, e := range x.Edges {
+				if c.isLoadedPath(e) {
+					return true
+				}
+			}
+			return false
+		case *ssa.UnOp:
+			if cv := c.cellValue(x.X); cv != nil {
+				v = cv
+				continue
+			}
+			return false
+		default:
+			return false
+		}
+	}
+	return false
 }
 
 // loadOrigin: the value last stored into the cell a load reads (same block), or v itself.
